@@ -365,6 +365,40 @@ def system_programs(run, scratch, focus, depth):
     run.steps[-1]["programs_from_tlc"] = len(cases)
 
 
+def extras(run, scratch, n):
+    """behaviour outside the listed properties (display(), debug iterators, full_method): validated against
+    CacheDisplay.tla; a mismatch is a divergence of specification and library on unlisted behaviour and is
+    reported as EXTRA-MISMATCH in the output and the evidence, never as a violation of this property"""
+    import copy as _copy
+    from .core import write_ndjson, run_tlc
+    events = harness_trace(scratch, "extra", "extra", ["--seed", run.seed, "--n", n])
+    panicked = [e for e in events if e.get("panic")]
+    events = [e for e in events if not e.get("panic")]
+    canary = _copy.deepcopy(next(e for e in events if e["t"] == "display" and e["text"]))
+    canary["text"] = canary["text"] + [33]
+    path = scratch.path("trace-Trace_Extra.ndjson")
+    write_ndjson(path, events + [canary])
+    r = run_tlc(scratch, "Trace_Extra", workers=10, timeout=1800, env={"TRACE": path}, capture_prefix="")
+    if r.violation or r.error:
+        raise ToolError(f"Trace_Extra: {r.violation or r.error}\n{r.out[-1500:]}")
+    mism = sorted({int(l.split()[1]) - 1 for l in r.lines if l.startswith("MISMATCH ")})
+    if len(events) not in mism:
+        raise ToolError("Trace_Extra: binding canary event was accepted")
+    mism = [i for i in mism if i != len(events)]
+    run.add_tlc("Trace_Extra", r, note="outside the listed properties: display(), debug_* counts, full_method")
+    run.traces += len(events)
+    run.steps[-1]["events"] = len(events)
+    run.extra["beyond_listed_properties"] = {
+        "display_events": len([e for e in events if e["t"] == "display"]),
+        "full_method_events": len([e for e in events if e["t"] == "full_method"]),
+        "mismatches": len(mism) + len(panicked),
+        "first_mismatch": ({k: (v if k != "bytes" else f"<{len(v)} bytes>") for k, v in events[mism[0]].items()} if mism else None)}
+    for i in mism[:3]:
+        log(f"EXTRA-MISMATCH (not a violation of {run.pid}): event {i} of Trace_Extra: {events[i]['t']}")
+    for e in panicked[:3]:
+        log(f"EXTRA-MISMATCH (not a violation of {run.pid}): {e['t']} panicked: {e['panic']}")
+
+
 COMMON_ASSUME = ["TLC (tla2tools 1.8.0) and its Json/IOUtils module overrides",
                  "harness event/answer encoding (enc.rs, handles.rs), checked by binding canaries",
                  "bounded alphabets in model-checked generation; seeded sampling in traces"]
@@ -640,6 +674,7 @@ def c09(run, scratch):
         run.violation("MC_CacheParse", {"signature": {"step": "MC_CacheParse"}, "tlc": r.violation, "output": r.out[-4000:]})
     run.add_tlc("MC_CacheParse", r, note="layout arithmetic of the documented format: full file accepted with implied length")
     spec_written_files(run, scratch, t)
+    extras(run, scratch, 120 if t else 30)
     run.exhaustive = False
     run.assumptions += COMMON_ASSUME + ["decoder CacheFormat.tla is written from the documented format only; the index it decodes "
                                         "is compared with Index!Blocks of the mapping as parsed by MappingSyntax"]
